@@ -149,6 +149,17 @@ fn vx_alloc_centroids_u16(n: usize) -> (r: Vec<Centroid>)
   ensures r@.len() == 0
 { Vec::with_capacity(n) }
 
+// `centroids_weight += weight.get()` / `total_weight += weight.get()` in the three centroid loops: the weights come straight from the image
+// (u64, or an f64 / f32 cast to u64) and their sum is not checked against u64::MAX (overflow panic in debug builds, wrap in release)
+#[verifier::external_body]
+fn vx_add_weight_raw(acc: &mut u64, w: u64)
+  requires /*@C14.td.weight_sum_fits*/ *old(acc) + w <= u64::MAX
+  ensures *final(acc) == *old(acc) + w
+{ *acc += w; }
+fn vx_add_weight(acc: &mut u64, w: u64) ensures *final(acc) == *old(acc) + w { vx_add_weight_raw(acc, w) }            // deserialize
+fn vx_add_weight_refv(acc: &mut u64, w: u64) ensures *final(acc) == *old(acc) + w { vx_add_weight_raw(acc, w) }       // deserialize_compat, verbose
+fn vx_add_weight_refs(acc: &mut u64, w: u64) ensures *final(acc) == *old(acc) + w { vx_add_weight_raw(acc, w) }       // deserialize_compat, small
+
 // =====================================================================================================================
 // codec/encode.rs: SketchBytes, real bodies, view = the bytes written so far
 // =====================================================================================================================
@@ -640,6 +651,7 @@ proof fn lemma_td_head(pre: u8, k: u16, flags: u8, rest: Seq<u8>)
 spec fn multi_r0(v: TdImg) -> Seq<u8> { le32_bytes(v.cents.len() as u32) + le32_bytes(v.buf.len() as u32) + le64_bytes(v.min) + le64_bytes(v.max) }
 spec fn multi_rest(v: TdImg) -> Seq<u8> { multi_r0(v) + enc_cents(v.cents) + enc_u64s(v.buf) }
 spec fn is_multi(v: TdImg) -> bool { !img_empty(v) && img_total(v) != 1 }
+#[verifier::spinoff_prover]
 proof fn lemma_multi_fields(v: TdImg)
   requires img_ok(v), is_multi(v)
   ensures ({ let e = enc_td(v);
@@ -674,38 +686,39 @@ proof fn lemma_off_double(b: Seq<u8>, i: int, j: int)
     assert(hdr_nc(b) * (2 * 8) == 16 * hdr_nc(b)) by (nonlinear_arith);
     assert(j * 8 == 8 * j) by (nonlinear_arith);
 }
+// a multi image = a 32-byte prefix, the centroid records, the buffered values
+spec fn multi_pre(v: TdImg) -> Seq<u8> { td_head(2, v.k, td_flags(false, false, v.rm)) + multi_r0(v) }
+proof fn lemma_multi_shape(v: TdImg)
+  requires is_multi(v)
+  ensures enc_td(v) == multi_pre(v) + enc_cents(v.cents) + enc_u64s(v.buf), multi_pre(v).len() == 32
+{
+    lemma_le32_roundtrip(v.cents.len() as u32); lemma_le32_roundtrip(v.buf.len() as u32); lemma_le64_roundtrip(v.min); lemma_le64_roundtrip(v.max);
+    lemma_le16_roundtrip(v.k);
+    assert(enc_td(v) =~= multi_pre(v) + enc_cents(v.cents) + enc_u64s(v.buf));
+}
 proof fn lemma_multi_cent(v: TdImg, i: int)
   requires img_ok(v), is_multi(v), 0 <= i < v.cents.len()
   ensures dec_cent(enc_td(v), i, false) == v.cents[i]
 {
-    let e = enc_td(v); let rest = multi_rest(v); let r0 = multi_r0(v);
-    lemma_multi_fields(v);
-    lemma_td_head(2, v.k, td_flags(false, false, v.rm), rest);
-    lemma_enc_cents_len(v.cents); lemma_enc_u64s_len(v.buf);
-    lemma_le32_roundtrip(v.cents.len() as u32); lemma_le32_roundtrip(v.buf.len() as u32); lemma_le64_roundtrip(v.min); lemma_le64_roundtrip(v.max);
-    lemma_enc_cents_at(v.cents, r0, enc_u64s(v.buf), i);
+    let e = enc_td(v);
+    lemma_multi_shape(v);
+    lemma_enc_cents_at(v.cents, multi_pre(v), enc_u64s(v.buf), i);
     lemma_le64_roundtrip(v.cents[i].0); lemma_le64_roundtrip(v.cents[i].1);
     lemma_off_double(e, i, 0);
-    assert(r0.len() == 24);
-    assert(e.subrange(32 + 16 * i, 40 + 16 * i) == rest.subrange(24 + 16 * i, 32 + 16 * i));
-    assert(e.subrange(40 + 16 * i, 48 + 16 * i) == rest.subrange(32 + 16 * i, 40 + 16 * i));
 }
 proof fn lemma_multi_buf(v: TdImg, j: int)
   requires img_ok(v), is_multi(v), 0 <= j < v.buf.len()
   ensures dec_val(enc_td(v), buf_off(enc_td(v), j, false), false) == v.buf[j], buf_off(enc_td(v), j, false) == 32 + 16 * v.cents.len() + 8 * j
 {
-    let e = enc_td(v); let rest = multi_rest(v); let r0 = multi_r0(v); let nc = v.cents.len() as int;
-    lemma_multi_fields(v);
-    lemma_td_head(2, v.k, td_flags(false, false, v.rm), rest);
-    lemma_enc_cents_len(v.cents); lemma_enc_u64s_len(v.buf);
-    lemma_le32_roundtrip(v.cents.len() as u32); lemma_le32_roundtrip(v.buf.len() as u32); lemma_le64_roundtrip(v.min); lemma_le64_roundtrip(v.max);
-    lemma_enc_u64s_at(v.buf, r0 + enc_cents(v.cents), Seq::empty(), j);
-    assert(r0 + enc_cents(v.cents) + enc_u64s(v.buf) + Seq::<u8>::empty() =~= rest);
+    let e = enc_td(v); let nc = v.cents.len() as int; let pre2 = multi_pre(v) + enc_cents(v.cents);
+    lemma_multi_shape(v); lemma_multi_fields(v);
+    lemma_enc_cents_len(v.cents);
+    lemma_enc_u64s_at(v.buf, pre2, Seq::empty(), j);
+    assert(pre2 + enc_u64s(v.buf) + Seq::<u8>::empty() =~= e);
     lemma_le64_roundtrip(v.buf[j]);
     lemma_off_double(e, 0, j);
-    assert(r0.len() == 24);
-    assert(e.subrange(32 + 16 * nc + 8 * j, 40 + 16 * nc + 8 * j) == rest.subrange(24 + 16 * nc + 8 * j, 32 + 16 * nc + 8 * j));
 }
+#[verifier::spinoff_prover]
 proof fn lemma_td_roundtrip(v: TdImg)
   requires img_ok(v)
   ensures /*@C11.td.spec_roundtrip*/ dec_td(enc_td(v), false) == v, /*@C13.td.double.encoder_valid*/ valid_td_image(enc_td(v), false)
@@ -815,7 +828,13 @@ proof fn lemma_buf_view_push(s0: Seq<f64>, x: f64, b: Seq<u8>, j: int, is_f32: b
   ensures buf_view(s0.push(x)) == dec_buf(b, j + 1, is_f32)
 {
     assert forall|i: int| 0 <= i < j + 1 implies buf_view(s0.push(x))[i] == dec_buf(b, j + 1, is_f32)[i] by {
-        if i < j { assert(buf_view(s0)[i] == dec_buf(b, j, is_f32)[i]); } else { assert(s0.push(x)[j] == x); }
+        if i < j {
+            assert(buf_view(s0)[i] == dec_buf(b, j, is_f32)[i]);
+            assert(s0.push(x)[i] == s0[i]);
+            assert(dec_buf(b, j, is_f32)[i] == dec_val(b, buf_off(b, i, is_f32), is_f32));
+        } else { assert(s0.push(x)[j] == x); }
+        assert(dec_buf(b, j + 1, is_f32)[i] == dec_val(b, buf_off(b, i, is_f32), is_f32));
+        assert(buf_view(s0.push(x))[i] == f64_bits(s0.push(x)[i]));
     }
     assert(buf_view(s0.push(x)) =~= dec_buf(b, j + 1, is_f32));
 }
@@ -1141,6 +1160,7 @@ impl TDigestMut {
         }
         bytes.into_bytes()
     }
+    #[verifier::spinoff_prover]
     fn deserialize(bytes: &[u8], is_f32: bool) -> (r: Result<Self, Error>)
       // requires true: the bytes are arbitrary
       ensures
@@ -1289,7 +1309,7 @@ impl TDigestMut {
             check_non_nan(mean, "centroid mean")?;
             check_finite(mean, "centroid")?;
             let weight = check_nonzero(weight, "centroid weight")?;
-            centroids_weight += weight.get();
+            vx_add_weight(&mut centroids_weight, weight.get());
             centroids.push(Centroid { mean, weight });
             proof {
                 lemma_wsum_push(cs0, centroids@.last());
@@ -1343,6 +1363,7 @@ impl TDigestMut {
         ))
     }
 
+    #[verifier::spinoff_prover]
     fn deserialize_compat(bytes: &[u8]) -> (r: Result<Self, Error>)
       // requires true
       ensures
@@ -1401,7 +1422,7 @@ impl TDigestMut {
                     let weight = check_nonzero(weight, "centroid weight in compat double format")?;
                     check_non_nan(mean, "centroid mean in compat double format")?;
                     check_finite(mean, "centroid mean in compat double format")?;
-                    total_weight += weight.get();
+                    vx_add_weight_refv(&mut total_weight, weight.get());
                     centroids.push(Centroid { mean, weight });
                     proof {
                         lemma_wsum_push(cs0, centroids@.last());
@@ -1461,7 +1482,7 @@ impl TDigestMut {
                     let weight = check_nonzero(weight, "centroid weight in compat float format")?;
                     check_non_nan(mean, "centroid mean in compat float format")?;
                     check_finite(mean, "centroid mean in compat float format")?;
-                    total_weight += weight.get();
+                    vx_add_weight_refs(&mut total_weight, weight.get());
                     centroids.push(Centroid { mean, weight });
                     proof {
                         lemma_wsum_push(cs0, centroids@.last());
@@ -1507,6 +1528,7 @@ proof fn lemma_view_img_ok(a: &TDigestMut)
         axiom_f64_of_bits_roundtrip(a.centroids@[i].mean);
     }
 }
+#[verifier::spinoff_prover]
 fn c11_roundtrip_td(a: &mut TDigestMut) -> (b: TDigestMut)
   requires old(a).wf(), old(a).wf_single(), old(a).wf_empty(), old(a).values_checked(), old(a).centroids@.len() + old(a).buffer@.len() <= u32::MAX,
   ensures
